@@ -27,7 +27,8 @@ from vlib import harness, mbf
 
 ID = 'C39'
 LEVEL = 'exploration'
-RULE = ("sweep: consecutive generator states reached through RND in BASIC, in 16 segments of the "
+RULE = ("sweep: consecutive generator states drawn through the RND function (every 16th draw as BASIC "
+        "text via Session.evaluate, the others by calling the bound RND callback directly), in 16 segments of the "
         "reference cycle (quick 16 x 2^16 spread over the cycle; thorough 16 x 2^20 = all 2^24 "
         "states, chained end-to-start, plus a bitmap over the reference cycle) - every state "
         "counts; reseed: RANDOMIZE with every int16 (thorough) / 4096 int16 (quick) and sampled "
@@ -207,11 +208,17 @@ def sweep_segment(sess, pos, length, on_fail):
     """Check draws number pos+1 .. pos+length (pos = draws already made since a fresh start).
     The session must already be in state_at(pos). Returns the final model state."""
     s = state_at(pos)
-    impl_eval = sess.s.evaluate
+    basic_eval = sess.s.evaluate            # public API: BASIC text -> Python value
+    rnd_ = sess.impl.randomiser.rnd_        # the function behind the RND token, argument-less form
+    noarg = [None]
     scale = float(M)
     for i in range(length):
         s = (A * s + C) % M
-        v = impl_eval(b'RND')
+        if i & 15:
+            v = rnd_(noarg).to_value()
+        else:
+            # every 16th draw (and the first) goes through the tokeniser and expression parser
+            v = basic_eval(b'RND')
         if not isinstance(v, float) or v * scale != s or not (0.0 <= v < 1.0):
             on_fail(pos + i + 1, s, v)
             return None
@@ -258,14 +265,34 @@ def _scale(n):
         return n
 
 
+NSEG = 16       # the reference cycle is cut into 16 segments whatever the number of shards
+
+
 def run_sweep(shard, nshards, tier, seed, ev):
+    for seg in range(shard, NSEG, nshards):
+        run_sweep_segment(seg, tier, ev)
+    if tier == 'thorough' and shard == 0:
+        # bitmap over the reference cycle: every state exactly once before returning to the start
+        seen = bytearray(M)
+        s = S0
+        cnt = 0
+        while not seen[s]:
+            seen[s] = 1
+            s = (A * s + C) % M
+            cnt += 1
+        if cnt != M or s != S0:
+            ev.fail('reference.period', {'u': 'refperiod'}, 'reference cycle length %d' % cnt)
+        ev.count(1, label='reference-bitmap-full-period')
+
+
+def run_sweep_segment(seg, tier, ev):
     seglen = _scale(1 << 16) if tier == 'quick' else (1 << 20)
-    stride = M // nshards
-    start = sync_pos_at_or_after(shard * stride)
+    stride = M // NSEG
+    start = sync_pos_at_or_after(seg * stride)
     if tier == 'quick':
         end = start + seglen
     else:
-        end = sync_pos_at_or_after((shard + 1) * stride) if shard + 1 < nshards else M
+        end = sync_pos_at_or_after((seg + 1) * stride) if seg + 1 < NSEG else M
     res = Result()
     fails = []
     with harness.Sess(budget=None) as sess:
@@ -283,24 +310,13 @@ def run_sweep(shard, nshards, tier, seed, ev):
             ev.fail('sweep.value', case, 'draw #%d: RND returned %r, reference state %d' % (p, v, s))
         n = end - start
         if tier == 'thorough':
-            # chaining: the state after this segment is where the next one starts / the cycle closes
-            if last is not None and shard + 1 == nshards and last != S0:
+            # the segments chain end-to-start (each ends where the next begins); the last one must
+            # arrive back at the initial state after 2^24 draws in total
+            if last is not None and seg + 1 == NSEG and last != S0:
                 ev.fail('sweep.period', {'u': 'sweep', 'start': start, 'len': n},
                         'state after 2^24 draws is %d, not the initial state' % last)
         ev.count(n, nontrivial=n, label='sweep-state')
         ev.sample({'u': 'sweep', 'start': start, 'len': 16})
-    if tier == 'thorough' and shard == 0:
-        # bitmap over the reference cycle: every state exactly once before returning to the start
-        seen = bytearray(M)
-        s = S0
-        cnt = 0
-        while not seen[s]:
-            seen[s] = 1
-            s = (A * s + C) % M
-            cnt += 1
-        if cnt != M or s != S0:
-            ev.fail('reference.period', {'u': 'refperiod'}, 'reference cycle length %d' % cnt)
-        ev.count(1, label='reference-bitmap-full-period')
 
 
 # ---------------------------------------------------------------------------------------------
@@ -814,7 +830,7 @@ def st_single_bytes(negative=None):
     return st.builds(lambda s, m, x: mbf.encode_parts(s, m, x, 4).hex(), sign, man, e)
 
 
-def st_double_bytes(negative=None, exact_single=None):
+def st_double_bytes(negative=None, exact_single=None, max_e=255):
     top = st.integers(1 << 55, (1 << 56) - 1)
     lowzero = st.integers(0x800000, 0xffffff).map(lambda m: m << 32)
     pat = st.builds(lambda hi, lo: ((0x800000 | hi) << 32) | lo, st.integers(0, 0x7fffff),
@@ -826,7 +842,7 @@ def st_double_bytes(negative=None, exact_single=None):
         man = st.one_of(top, pat)
     else:
         man = st.one_of(top, lowzero, pat)
-    e = st.one_of(st.integers(1, 255), st.sampled_from([128, 129, 127, 144, 152, 1, 255]))
+    e = st.one_of(st.integers(1, max_e), st.sampled_from([128, 129, 127, 144, 152, 1, max_e]))
     sign = st.integers(0, 1) if negative is None else st.just(1 if negative else 0)
     return st.builds(lambda s, m, x: mbf.encode_parts(s, m, x, 8).hex(), sign, man, e)
 
@@ -857,7 +873,8 @@ def st_rndneg_arg(doubles='exact'):
     ]
     if doubles == 'any':
         alts.append(st.builds(lambda h: {'t': 'bytes', 'hex': h, 'form': 'cvd'},
-                              st_double_bytes(True, exact_single=False)))
+                              # exponent 255 excluded: rounding to single may overflow there
+                              st_double_bytes(True, exact_single=False, max_e=254)))
     return st.one_of(*alts)
 
 
@@ -903,16 +920,17 @@ def gen_intexpr(shard, nshards, tier, seed):
 
 
 def units(tier):
+    # few shards in the quick tier: a forked worker costs 1-2 CPU-s before it does anything
     return [
-        Unit('sweep', 'bulk', shards=16, run=run_sweep, exhaustive=(tier == 'thorough'),
-             per_case_timeout=600.0),
-        Unit('randomize-int16', 'enum', shards=16, gen=gen_randomize_int,
+        Unit('sweep', 'bulk', shards={'quick': 8, 'thorough': 16}, run=run_sweep,
+             exhaustive=(tier == 'thorough'), per_case_timeout=600.0),
+        Unit('randomize-int16', 'enum', shards={'quick': 4, 'thorough': 16}, gen=gen_randomize_int,
              exhaustive=(tier == 'thorough')),
-        Unit('rndneg-classes', 'enum', shards=16, gen=gen_rndneg_classes),
-        Unit('reseed-sampled', 'hyp', shards=16, examples={'quick': _scale(250), 'thorough': 20000},
-             strategy=strat_reseed),
-        Unit('history', 'hyp', shards=16, examples={'quick': _scale(120), 'thorough': 8000},
-             strategy=strat_history),
+        Unit('rndneg-classes', 'enum', shards={'quick': 2, 'thorough': 4}, gen=gen_rndneg_classes),
+        Unit('reseed-sampled', 'hyp', shards={'quick': 4, 'thorough': 16},
+             examples={'quick': _scale(600), 'thorough': 20000}, strategy=strat_reseed),
+        Unit('history', 'hyp', shards={'quick': 8, 'thorough': 16},
+             examples={'quick': _scale(160), 'thorough': 8000}, strategy=strat_history),
         Unit('intexpr', 'enum', shards=1, gen=gen_intexpr),
     ]
 
@@ -939,4 +957,19 @@ REGRESSIONS = [
     {'u': 'intexpr', 'text': '-2', 'v': -2, 'draws': 0},
 ]
 
-KILLS = []
+KILLS = [
+    "randomiser.py _multiplier 214013 -> 214017  -> sweep.value (draw #1), rndneg.value",
+    "randomiser.py _increment 2531011 -> 2531013 -> sweep.value (draw #1), rndneg.value",
+    "rnd_: divide by _period - 1 instead of _period -> sweep.value (1 ulp off at draw #1), rndneg.value",
+    "rnd_: RND(0) cycles the generator -> rnd0.value (history); sweep alone survives, as expected",
+    "clear(): keeps the old seed -> clear.restart, run.restart, rnd0.value (history)",
+    "reseed: drop `_seed &= 0xff` -> randomize.state (randomize-int16, all 4111 cases)",
+    "reseed: _step 4455680 -> 4455936 -> randomize.state (randomize-int16)",
+    "rnd_: seed = +mantissa instead of -mantissa (negative seed) -> rndneg.value (rndneg-classes; "
+    "mantissa 0x800000 is a fixed point of the mutation, every other class fails)",
+    "reseed: XOR mask only for doubles (`len(s) >= 8`) -> randomize.state (reseed-sampled, singles); "
+    "randomize-int16 survives, as expected",
+    "reseed: mask taken from s[-5:-3] -> escaped.IndexError@randomiser.py:reseed (singles) and "
+    "randomize.state (doubles)",
+    "(hyp units were run at VERIF_SCALE=0.06, i.e. 15 / 7 examples per shard, and still killed)",
+]
